@@ -78,7 +78,12 @@ class SchemaCollection(UnicodeMixin):
             self.namespaces[key] = schema
         else:
             existing.root.children += schema.root.children
-            existing.root.nsprefixes.update(schema.root.nsprefixes)
+            # Only add prefixes the existing schema root can not resolve at
+            # all (neither by its own nor by an inherited mapping) as its own
+            # declarations must keep resolving the way they were written.
+            for prefix, uri in list(schema.root.nsprefixes.items()):
+                if existing.root.resolvePrefix(prefix, None) is None:
+                    existing.root.nsprefixes[prefix] = uri
 
     def load(self, options, loaded_schemata):
         """
